@@ -4,6 +4,7 @@ import (
 	_ "verif/harness/c01"
 	_ "verif/harness/c02"
 	_ "verif/harness/c03"
+	_ "verif/harness/c04"
 	_ "verif/harness/c05"
 	_ "verif/harness/c06"
 	_ "verif/harness/c11"
